@@ -35,7 +35,9 @@ def resHashStr : Res IoErr HB → String
 /-- `ob blob bs entry` -/
 def opOb (args : List String) (impl : String) : Verdict :=
   match args with
-  | [b, bs, entry] =>
+  | [b, bs, entry0] =>
+    -- `+t<m>`: the data reader hands out at most m bytes per call; nothing may depend on that
+    let entry := (entry0.splitOn "+t").head!
     match blob b, bs.toNat? with
     | some d, some bs =>
       let tree : Tree := ⟨d.length, bs⟩
@@ -51,8 +53,8 @@ def opOb (args : List String) (impl : String) : Verdict :=
         match entry with
         | "sync-create-preMem" => some ((viaStore .preMem (zerosN obsize)).1, (viaStore .preMem (zerosN obsize)).2, true)
         | "sync-create-postMem" | "sync-post-order" | "fsm-post-order" => some (viaWriter.1, viaWriter.2, false)
-        | "sync-sized-preIo" | "fsm-sized-preIo" => some ((viaStore .preIo []).1, (viaStore .preIo []).2, true)
-        | "sync-sized-postIo" | "fsm-sized-postIo" => some ((viaStore .postIo []).1, (viaStore .postIo []).2, false)
+        | "sync-sized-preIo" | "fsm-sized-preIo" | "sync-create-preIo" | "fsm-create-preIo" => some ((viaStore .preIo []).1, (viaStore .preIo []).2, true)
+        | "sync-sized-postIo" | "fsm-sized-postIo" | "sync-create-postIo" | "fsm-create-postIo" => some ((viaStore .postIo []).1, (viaStore .postIo []).2, false)
         | "sync-init-preIo" | "fsm-init-preIo" => some ((viaStore .preIo (staleN obsize)).1, (viaStore .preIo (staleN obsize)).2, true)
         | "sync-init-postIo" | "fsm-init-postIo" => some ((viaStore .postIo (staleN obsize)).1, (viaStore .postIo (staleN obsize)).2, false)
         | e =>
